@@ -323,6 +323,14 @@ pub fn check_input(rep: &mut Report, b: &[u8], label: &str, rng: &mut StdRng) ->
     let mut viol = |rep: &mut Report, clause: &str, class: &str, detail: String| {
         rep.violation(&format!("C04|{clause}|{class}"), &format!("{clause} [{class}]: {detail}"), replay());
     };
+    // (0) the versionPTP pre-filter every received buffer passes first (ports and the daemon's
+    // socket loop call it before decoding) is total, and lets through whatever the decoder accepts
+    let pre = guarded(|| statime::port::is_message_buffer_compatible(b));
+    rep.ev("prefilter_called");
+    if let Err(p) = &pre {
+        viol(rep, "total", &format!("prefilter|{}|{}", p.site(), p.class()), format!("is_message_buffer_compatible panicked on {} octet(s): {} at {}", b.len(), p.message, p.location));
+        return Outcome { accepted: false };
+    }
     // (1) total
     let r = guarded(|| FuzzMessage::deserialize(b).map(|m| (format!("{m:?}"), m)).map_err(|e| e.to_string()));
     let (dbg, msg) = match r {
@@ -726,7 +734,7 @@ pub fn forwarded_tlv_reencode(rep: &mut Report, tlvs_in: &[Tlv], seed: u64) {
 
 pub fn run(rep: &mut Report, tier: &str, seed: u64, shard: (u32, u32), replay: Option<&str>) {
     rep.rule = "inputs = reference-codec encodings of every message type with swept/lattice/random field values and TLV layouts, their mutations (bit flips, truncations, messageLength relations, TLV length corruption) and pure random bytes; distinct = distinct byte strings; non-trivial = accepted by the decoder (oracle clauses 2-4 ran)".into();
-    rep.require(&["accepted", "rejected", "reencoded", "refcodec_compared", "debug_compared", "tail_pairs", "message_longer_than_1024_octets"]);
+    rep.require(&["accepted", "rejected", "reencoded", "refcodec_compared", "debug_compared", "tail_pairs", "message_longer_than_1024_octets", "prefilter_called", "every_one_octet_buffer"]);
     for t in ALL_TYPES {
         rep.required_events.push(format!("accepted_{}", type_name(t)));
     }
@@ -900,6 +908,17 @@ pub fn run(rep: &mut Report, tier: &str, seed: u64, shard: (u32, u32), replay: O
                 }
             }
         }
+    }
+    if shard.0 == 0 {
+        // every buffer of 0, 1 and 2 octets (the second octet carries versionPTP)
+        one(rep, &[], "tiny", &mut rng);
+        for a in 0..=255u8 {
+            one(rep, &[a], "tiny", &mut rng);
+            for b2 in [0u8, 1, 2, 0x12, 0x21, 0xf2, 0xff] {
+                one(rep, &[a, b2], "tiny", &mut rng);
+            }
+        }
+        rep.ev("every_one_octet_buffer");
     }
     if shard.0 == 0 && tier != "miri" {
         // messages longer than the 1024 octets statime itself ever sends: a TLV boundary at and
